@@ -87,6 +87,7 @@ ADD = {
     'C11': 'One generator object is set up repeatedly (same spec object, equal copy, other spec); floats in all four scales with pinned, few-ulp, huge and overflowing ranges and RNG stubs returning the extremes, NaN corruptions; enumerable custom points over hostile genomes (empty string etc.) in seven embeddings with bounded iteration; space_size of specs with 1-4 infinite elements; corruptions applied in place to bound DNAs before validate / use_spec; successors of sealed DNAs.',
     'C12': 'Call histories on one long-lived spec and on its parts used as specs of their own (first_dna / next_dna / iter_dna / random_dna with attach_spec absent, True, False, in any order).',
     'C13': 'Clients edit decoded values in place between decodes (identity disjointness between results and template); equal values with permuted dict keys encode to the same DNA; non-member encode inputs must leave the template unchanged; templates carry sealed / accessor / partial flags; plain dict / list roots are judged fully.',
+    'C14': 'Operator histories (construct, call, rebind / assign seed or parameters, clone with override, JSON round trip, call again) are compared with a fresh operator of the same parameters for every seeded operator family; a probe runs seeded recombinators over parents with str decisions in subprocesses under several PYTHONHASHSEED values and compares the children, order included.',
     'C15': 'The persisted history is delivered to recover() in 1-4 pieces at every class of cut (empty first / last piece, before a pending entry, inside / after the population fill); num_generations and the initial-population phase of the next proposal are compared; user-defined generators whose proposals depend on their counters.',
     'C16': 'Window sessions release all workers together at their first feedback / start and pre-empt at every statement inside the window (lockstep, stutter, dense, enumerated depths) with a user-style algorithm whose multi-statement bookkeeping is audited; group ids over the documented int|str domain incl. 0 and the empty string; trials that take several deliveries with num_examples set.',
     'C17': 'Fifteen kinds of events in which code the library dispatches to raises and is caught inside the block are followed by effectiveness checks; scope objects created early and entered late for every manager; DynamicEvaluationContext.apply with exits that raise, nested on one context; enters that raise inside an enclosing scope of the same kind; rebinds of the governed object inside the block; empty-collection arguments.',
